@@ -7,7 +7,7 @@ at that position by a non-negated atom of the query. For a query made of a singl
 exactly the successive leftmost non-overlapping occurrences, and for a single regular expression they cover exactly
 the bytes of the engine's non-empty matches (newline bytes excluded in line mode).
 -/
-import ZoektModel.C02.Lemmas2
+import ZoektModel.C02.Lemmas3
 namespace ZoektModel.C02
 open ZoektModel ZoektModel.C03
 
@@ -168,6 +168,56 @@ theorem gather_engine_matches_id (name : Bytes) (ms : List Cand) (hne : ms ≠ [
 
 example : gatherCands [] ((occFrom [97, 97] [97, 97, 97, 98, 97, 97] 0).map fun o => ⟨false, o, 2⟩) =
     [⟨false, 0, 2⟩, ⟨false, 4, 2⟩] ∧ occFrom [97, 97] [97, 97, 97, 98, 97, 97] 0 = [0, 1, 4] := by decide
+
+/-- **C02, newline splitting (line mode)**: the pieces `breakOnNewlines` makes of an in-bounds candidate keep its kind,
+    are non-empty, lie inside it, contain no newline byte, and come in increasing order separated by at least one byte. -/
+theorem break_pieces (text : Bytes) (cm : Cand) (_hb : cm.off + cm.sz ≤ text.length) :
+    (∀ c ∈ breakOnNewlines text cm, c.fileName = cm.fileName ∧ 0 < c.sz ∧ cm.off ≤ c.off ∧ c.off + c.sz ≤ cm.off + cm.sz) ∧
+    (breakOnNewlines text cm).Pairwise (fun a b => a.off + a.sz < b.off) :=
+  breakLoop_struct cm.fileName (cm.off + cm.sz) (text.drop cm.off) cm.off cm.off (Nat.le_refl _) (by omega)
+
+/-- **`break_newlines_cover`**: the pieces cover exactly the bytes of the candidate that are not newlines -/
+theorem break_newlines_cover (text : Bytes) (cm : Cand) (hb : cm.off + cm.sz ≤ text.length) (p : Nat) :
+    covers (breakOnNewlines text cm) p ↔ cm.off ≤ p ∧ p < cm.off + cm.sz ∧ text.getD p 0 ≠ 10 := by
+  unfold breakOnNewlines
+  rw [breakLoop_cover cm.fileName (cm.off + cm.sz) (text.drop cm.off) cm.off cm.off p (Nat.le_refl _) (by omega)
+    (by simp; omega)]
+  constructor
+  · rintro (h | ⟨h1, h2, h3⟩)
+    · omega
+    · refine ⟨h1, h2, ?_⟩
+      rw [getD_drop] at h3
+      have e : cm.off + (p - cm.off) = p := by omega
+      rwa [e] at h3
+  · rintro ⟨h1, h2, h3⟩
+    right
+    refine ⟨h1, h2, ?_⟩
+    rw [getD_drop]
+    have e : cm.off + (p - cm.off) = p := by omega
+    rwa [e]
+
+/-- no piece contains a newline byte -/
+theorem break_no_newline (text : Bytes) (cm : Cand) (hb : cm.off + cm.sz ≤ text.length) :
+    ∀ c ∈ breakOnNewlines text cm, ∀ p, c.off ≤ p → p < c.off + c.sz → text.getD p 0 ≠ 10 := by
+  intro c hc p h1 h2
+  exact ((break_newlines_cover text cm hb p).mp ⟨c, hc, h1, h2⟩).2.2
+
+/-- breaking a list of ordered, non-overlapping, in-bounds candidates gives an ordered, non-overlapping list -/
+theorem breakMatches_ordered (text : Bytes) (ms : List Cand) (hb : ∀ c ∈ ms, c.off + c.sz ≤ text.length)
+    (hd : ms.Pairwise (fun a b => a.off + a.sz ≤ b.off)) :
+    (breakMatchesOnNewlines text ms).Pairwise (fun a b => a.off + a.sz ≤ b.off) := by
+  unfold breakMatchesOnNewlines
+  rw [List.pairwise_flatMap]
+  constructor
+  · intro a ha
+    exact (break_pieces text a (hb a ha)).2.imp (fun h => Nat.le_of_lt h)
+  · refine hd.imp_of_mem ?_
+    intro a b ha hbm hab x hx y hy
+    have := (break_pieces text a (hb a ha)).1 x hx
+    have := (break_pieces text b (hb b hbm)).1 y hy
+    omega
+
+example : breakOnNewlines [97, 10, 10, 98, 99, 10] ⟨false, 0, 6⟩ = [⟨false, 0, 1⟩, ⟨false, 3, 2⟩] := by decide
 
 /-! non-vacuity: candidates of three atoms, one below `not`, with overlaps, a same-offset tie (the longer wins),
     adjacent matches (both kept) and file-name matches (sorted first, never compared with content matches) -/
